@@ -265,6 +265,17 @@ def register(M):
         t = z3.Const(fresh_name('M3'), TOK)
         st.ghost['tokens3'] = tuple(reg) + ((t, a),)
         return t
+    COMP = z3.Function('compelled', TOK, z3.IntSort(), z3.IntSort(), z3.BoolSort())
+
+    def b_compelled(args, kw, st, node):
+        """compelled(G, a, b): the edge a -> b of the DAG G has this direction in every member of G's Markov equivalence class
+        (uninterpreted; concrete definition by brute force in vk/dsl.py)"""
+        g = M.as_arr(st, args[0])
+        ex.use('OPAQUE:compelled(G, a, b) - uninterpreted; its meaning (brute force over the equivalence class) is checked only by the bounded tier')
+        return COMP(token_of(g, st), Z(num(args[1])), Z(num(args[2])))
+    M.opaque['compelled'] = b_compelled
+    B['compelled'] = b_compelled
+    opaque_pred('valid_edge_order', 1)
     opaque_pred('enumerates_mec', 2)
     opaque_pred('enumerates_extensions', 2)
     opaque_pred('is_cpdag_of', 2)
@@ -360,6 +371,12 @@ def register(M):
     DRAWV = z3.Function('draw', z3.IntSort(), z3.IntSort(), z3.IntSort(), z3.RealSort())
     ROLE = {'noise': 0, 'do': 1, 'shift': 2, 'newnoise': 3}
 
+    def owned(ref):
+        """what a caller-supplied callable returns belongs to the caller (it may be a buffer the callable keeps): an in-place
+        update of it is a frame violation, exactly like a write to an argument"""
+        ex.frame_roots[ref.oid] = 'the array returned by a caller-supplied callable'
+        return ref
+
     def call_user_callable(f, args, kw, st, node):
         idx = Z(num(f.index))
         key = (f.role, str(idx))
@@ -384,11 +401,11 @@ def register(M):
             if shape == 'scalar':
                 return RET(idx, z3.IntVal(0))
             if shape == 'col':
-                return st.alloc(SArr((n, 1), lambda rr, cc: RET(idx, Z(rr)), 'float'))
-            return st.alloc(SArr((n,), lambda rr: RET(idx, Z(rr)), 'float'))
+                return owned(st.alloc(SArr((n, 1), lambda rr, cc: RET(idx, Z(rr)), 'float')))
+            return owned(st.alloc(SArr((n,), lambda rr: RET(idx, Z(rr)), 'float')))
         if f.role in ROLE:
             n = num(args[0])
-            return st.alloc(SArr((n,), lambda rr, k=ROLE[f.role]: DRAWV(z3.IntVal(k), idx, Z(rr)), 'float'))
+            return owned(st.alloc(SArr((n,), lambda rr, k=ROLE[f.role]: DRAWV(z3.IntVal(k), idx, Z(rr)), 'float')))
         raise Unsupported('callable role ' + f.role)
     M.call_user_callable = call_user_callable
     B['call_ncols'] = lambda args, kw, st, node: ARGN(Z(num(args[0])))
